@@ -298,6 +298,15 @@ def render_machine(prog, base_name=None):
         if cbid.startswith("machine.") and prog["cbs"][cbid].get("style") == "callable" \
                 and not prog["cbs"][cbid].get("inherited"):
             lines.append(render_cb(prog, cbid).rstrip("\n"))
+    inst_attrs = sorted((c.split(".", 1)[1], m["value"]) for c, m in prog["cbs"].items()
+                        if c.startswith("machine.") and m.get("inst_attr") is not None and not m.get("inherited"))
+    if inst_attrs:
+        # plain instance attributes of the machine used as guards, set by the subclass's own __init__
+        # before the library's constructor runs
+        lines.append("    def __init__(self, *args, **kwargs):")
+        for nm, val in inst_attrs:
+            lines.append(f"        self.{nm} = {val!r}")
+        lines.append("        super().__init__(*args, **kwargs)")
     for s in prog["states"]:
         if s.get("inherited"):
             continue
@@ -402,7 +411,7 @@ def render_machine(prog, base_name=None):
             lines.append(f"    def {pr['name']}(self, *a, **k):\n        return SIM.probe({full!r}, self)")
     for cbid in sorted(prog["cbs"]):
         if cbid.startswith("machine.") and not prog["cbs"][cbid].get("inherited") \
-                and prog["cbs"][cbid].get("style", "name") == "name":
+                and prog["cbs"][cbid].get("style", "name") == "name" and prog["cbs"][cbid].get("inst_attr") is None:
             lines.append(render_cb(prog, cbid).rstrip("\n"))
     return "\n".join(lines) + "\n"
 
